@@ -664,6 +664,36 @@ def ob_sort_native(gridname):
     return held("%d spaces" % n)
 
 
+def ob_not_under_contract(modname, fname):
+    """frame: every function with a `prange` loop has a launch contract.  A parallel loop that appears in a function without one (new code) is analysed with the
+    empty launch precondition: if two iterations can store to the same location, or it reduces into a shared scalar, the property is violated; otherwise it is
+    undecided until a contract is written."""
+    try:
+        obs, _ = analysis(modname, fname, None)
+    except Exception as ex:  # noqa
+        return undecided("prange function %s.%s has no launch contract and cannot be analysed: %s" % (modname, fname, str(ex)[:200]))
+    bad = []
+    for i, (name, kind, _, _) in enumerate(obs):
+        try:
+            r = ob_prange(modname, fname, None, i)
+        except Exception as ex:  # noqa
+            return undecided("prange function %s.%s has no launch contract; obligation %s could not be discharged: %s" % (modname, fname, name, str(ex)[:120]))
+        if r.get("status") == "violated":
+            bad.append((name, r.get("detail", "")[:200]))
+    if bad:
+        return violated("new parallel loop in %s.%s (no launch contract): %s" % (modname, fname, bad[:3]), signature="prange/new/%s" % fname,
+                        replay={"confirmed": False, "note": "structural obligation on the loop body; a schedule-dependent result needs JIT and several thread counts (thorough tier)"})
+    return undecided("prange function %s.%s has no launch contract (its stores are disjoint without any precondition); add one to contracts/prange_launch.py" % (modname, fname))
+
+
+def ob_not_analysable(tag, msg):
+    return undecided("prange loop of %s is outside the analysed subset: %s" % (tag, msg))
+
+
+def ob_contract_without_function(modname, fname):
+    return {"status": "error", "detail": "contract for %s.%s matches no prange function" % (modname, fname)}
+
+
 def main():
     run = Run("C16", "other")
     thorough = run.tier == "thorough"
@@ -673,7 +703,7 @@ def main():
         mod = importlib.import_module(modname)
         for fname, par in par_functions(modname):
             if (modname, fname) not in PL.CONTRACTS:
-                run.add("%s::not-under-contract" % fname, "frame", lambda f=fname: {"status": "error", "detail": "prange function %s has no launch contract" % f})
+                run.add("%s::not-under-contract" % fname, "frame", ob_not_under_contract, modname, fname)
                 continue
             listed.add((modname, fname))
             f = getattr(mod, fname)
@@ -684,7 +714,7 @@ def main():
                 try:
                     obs, _ = analysis(modname, fname, vkey)
                 except Unsupported as ex:
-                    run.add("%s::analysable" % tag, "frame", lambda m=str(ex), t=tag: undecided("prange loop of %s is outside the analysed subset: %s" % (t, m)))
+                    run.add("%s::analysable" % tag, "frame", ob_not_analysable, tag, str(ex))
                     continue
                 for i, (name, kind, _, _) in enumerate(obs):
                     nm = name.replace(fname + "::", tag + "::")
@@ -696,7 +726,7 @@ def main():
                 run.add("%s::callees-do-not-write-arguments" % fname, "frame", ob_callee_purity, modname, fname)
     for key in PL.CONTRACTS:
         if key not in listed:
-            run.add("%s::contract-without-function" % key[1], "frame", lambda k=key: {"status": "error", "detail": "contract for %s.%s matches no prange function" % k})
+            run.add("%s::contract-without-function" % key[1], "frame", ob_contract_without_function, key[0], key[1])
     run.add("dense_assembler::establishes-COLOURED", "pre", ob_launch_ast)
     # hypothesis "slot cover" of lemma B, proved per iteration on the mechanically extracted final loops of the P1 and RWG / SNC dof-map functions (all sizes)
     from vlib import vrun as VR
